@@ -40,7 +40,8 @@ def gen(rng, broker, tier):
                 "node": f"n{c % (1 if broker == 'mem' else rng.randint(1, 3))}",
                 "think_us": rng.choice([0, 0, 200, 5000, 40_000]),
                 "timeout_us": rng.choice([20_000, 200_000, 1_000_000]),
-                "actions": [rng.choice(["ack", "ack", "ack", "reject", "requeue", "restart"]) for _ in range(rng.randint(3, 25))],
+                "actions": [rng.choice(["ack", "ack", "ack", "reject", "requeue", "restart", "reject+finish"])
+                            for _ in range(rng.randint(3, 25))],
                 "start_us": rng.choice([0, 0, 1000, 50_000]),
             })
         return {"mode": "consumers", "nmsg": nmsg, "consumers": cons, "jobs": [],
@@ -115,6 +116,11 @@ async def _main_consumers(sim, sc, out):
                 acked.add(key.id_)
             elif act == "reject":
                 await mb.reject(key)
+            elif act == "reject+finish":
+                # what a stopping worker does: the holder rejects its message while its consumer is being finished
+                await asyncio.gather(mb.reject(key), cons.finish())
+                cons = mb.get_consumer("q", None, None)
+                await cons.start()
             else:
                 await mb.requeue(key, payload, Parameters(timestamp=sim.clock.now(),
                                                           retries=RetriesProperties(max_amount=9, already_tried=1)))
@@ -130,6 +136,7 @@ async def _main_consumers(sim, sc, out):
             V.append(violation("client-raised", f"C14/{b}/client-raised/{type(x).__name__}", exc=repr(x)[:300]))
     await asyncio.sleep(0.5)
     _ownership_oracle(rec, ids, V, b, out)
+    tainted = out.pop("_tainted", set())
     out["nontrivial"] = len([c for c, n in got_by.items() if n > 0]) >= 2
     out["states"].append(f"c{len(got_by)}-a{len(acked)}")
     # conservation at the end
@@ -139,7 +146,7 @@ async def _main_consumers(sim, sc, out):
         if any(p["place"] == "held" for p in insp.get(id_, [])):
             V.append(violation("consume-result-dropped", f"C14/{b}/cancelled-consume-dropped-a-taken-message", id=id_, consumer=who))
     for id_ in ids:
-        if id_ in dropped:
+        if id_ in dropped or id_ in tainted:
             continue
         ps = insp.get(id_, [])
         if id_ in acked and ps:
@@ -163,17 +170,31 @@ def _ownership_oracle(rec, ids, V, b, out):
     evs.sort(key=lambda x: x[0])
     holder: dict = {}  # id -> consumer who
     gone: set = set()
+    deliver_of: dict = {}
+    tainted: set = out.setdefault("_tainted", set())
+    rejects = [e for e in rec.events if e.op == "reject"]
     overlaps = 0
     for _, kind, e in evs:
         if kind == "deliver":
             if e.id in gone:
-                V.append(violation("delivered-after-ack", f"C14/{b}/delivered-after-ack", id=e.id, to=e.who))
+                if e.id not in tainted:  # a message that already exists twice is reported once
+                    V.append(violation("delivered-after-ack", f"C14/{b}/delivered-after-ack", id=e.id, to=e.who))
                 continue
             h = holder.get(e.id)
             if h is not None:
-                V.append(violation("double-delivery", f"C14/{b}/double-delivery/{'same-node' if h.split('/')[0] == e.who.split('/')[0] else 'other-node'}",
-                                   id=e.id, first=h, second=e.who))
+                # known in-memory finding: the previous holder gave the message back twice (finish() of its consumer
+                # and a reject() in flight at the same time); finish() returned it, the current holder took it, and
+                # the late reject() - which finds messages by id only - took it away from the current holder
+                first_deliv = deliver_of.get(e.id)
+                stolen = first_deliv is not None and any(
+                    r.op == "reject" and r.id == e.id and r.outcome == "returned" and r.seq < first_deliv.end_seq < r.end_seq
+                    for r in rejects)
+                mech = "late-reject-after-own-finish-took-it-from-new-holder" if (stolen and b == "mem") else (
+                    "same-node" if h.split("/")[0] == e.who.split("/")[0] else "other-node")
+                V.append(violation("double-delivery", f"C14/{b}/double-delivery/{mech}", id=e.id, first=h, second=e.who))
+                tainted.add(e.id)
             holder[e.id] = e.who
+            deliver_of[e.id] = e
         elif kind == "release-begin":
             holder.pop(e.id, None)
         elif kind == "ack-begin":
@@ -267,6 +288,7 @@ async def _main_workers(sim, sc, out):
             V.append(violation("executed-more-than-once", f"C14/{b}/executed-{n}x", id=jid,
                                by=[s[4] for s in state.starts if s[2] == jid]))
     _ownership_oracle(world.rec, set(jobs) - held_by_dead, V, b, out)
+    out.pop("_tainted", None)
     out["nontrivial"] = len(nodes_used) >= 2
     out["states"].append(f"w{len(nodes_used)}-j{len(counts)}")
 
